@@ -89,6 +89,18 @@ func genCRSTree(r *Rng) *crsTree {
 	if r.Chance(1, 6) {
 		t.files["root/regex-assembly/942100.ra.bak"] = "backup\n"
 	}
+	if r.Chance(1, 3) {
+		// decoys named like an assembly file but WITHOUT the extension: --all must not take them
+		for _, rule := range t.rules.Rules {
+			if len(rule.ID) == 6 && len(rule.Chain) > 0 && (rule.Chain[0].Operator == "@rx" || rule.Chain[0].Operator == "!@rx") {
+				t.files["root/regex-assembly/"+rule.ID] = "intruder\n"
+				if len(rule.Chain) > 1 {
+					t.files["root/regex-assembly/"+rule.ID+"-chain1"] = "stowaway\n"
+				}
+				break
+			}
+		}
+	}
 	// tests
 	td := "root/tests/regression/tests/REQUEST-942-APPLICATION-ATTACK-SQLI/"
 	// one tree in three: an earlier file with titles, a later one with both fields per test (what a
